@@ -169,6 +169,8 @@ class FuncMonitor:
         self.exempt = exempt          # set of (rel, firstlineno, param) / (rel, firstlineno, "*")
         self.stack = {}
         self.calls = {}
+        self.cur_op = None
+        self.op_funcs = {}    # op name -> set of (rel, firstlineno) of analysed functions it ran
         self.found = []
         self.on = False
 
@@ -211,6 +213,8 @@ class FuncMonitor:
                 return
             key = (rel, code.co_firstlineno)
             self.calls[key] = self.calls.get(key, 0) + 1
+            if self.cur_op is not None:
+                self.op_funcs.setdefault(self.cur_op, set()).add(key)
             if (rel, code.co_firstlineno, "*") in self.exempt:
                 return
             n = code.co_argcount + code.co_kwonlyargcount
@@ -512,6 +516,7 @@ class Observer:
         self.cur_att = att
         self.pending = att
         if self.monitor is not None and self.nattempt % self.monitor_every == 0:
+            self.monitor.cur_op = att["op"]
             self.monitor.__enter__()
 
     def _after(self):
@@ -566,3 +571,5 @@ class Observer:
             for (rel, line), n in self.monitor.calls.items():
                 k = f"{rel}:{line}"
                 self.rec["monitor_calls"][k] = self.rec["monitor_calls"].get(k, 0) + n
+            self.rec["monitor_ops"] = {op: sorted(f"{rel}:{line}" for (rel, line) in ks)
+                                       for op, ks in self.monitor.op_funcs.items()}
